@@ -9,7 +9,7 @@
    td_reach c s: s is reachable in family c.  Only statements closed by [exact] + Print Assumptions. *)
 From Coq Require Import Bool List PArith NArith.
 From Sctp Require Import Gen Teardown TeardownProofs TeardownHsProofs TeardownEstProofs TeardownSdProofs
-  TeardownClose2Proofs TeardownT1Proofs TeardownMainProofs.
+  TeardownClose2Proofs TeardownT1Proofs TeardownDlProofs TeardownMainProofs.
 Import ListNotations.
 
 (* The generic closure lemma: a set that contains the initial state and is closed under the step relation
@@ -37,7 +37,7 @@ Theorem c09_done_means : forall s, td_done s = true ->
   td_rd s <> TdRdParked /\ td_rd s <> TdRdCheck /\ td_wr s <> TdWrBlocked /\
   td_wr s <> TdWrWoken /\ td_ac s <> TdAcWait /\ td_sh s <> TdShWait /\ td_sh s <> TdShWoken /\
   (td_c1 s = TdCcNone \/ td_c1 s = TdCcRet) /\ (td_c2 s = TdCcNone \/ td_c2 s = TdCcRet) /\
-  (td_ab s = TdAbNone \/ td_ab s = TdAbRet).
+  (td_ab s = TdAbNone \/ td_ab s = TdAbRet) /\ td_dl s <> TdDlArmed.
 Proof. exact td_done_spec. Qed.
 Print Assumptions c09_done_means.
 
@@ -126,8 +126,26 @@ Proof. exact td_old_race_harmless. Qed.
 Print Assumptions c09_t1_callback_race_now_harmless.
 
 Theorem c09_t1_families_are_covered : forall c, In c td_families_t1 -> In c td_all_families.
-Proof. intros c H. unfold td_all_families. apply in_or_app. right. apply in_or_app. right. exact H. Qed.
+Proof.
+  intros c H. unfold td_all_families. apply in_or_app. right. apply in_or_app. right. apply in_or_app. left. exact H.
+Qed.
 Print Assumptions c09_t1_families_are_covered.
+
+(* A read deadline armed on a stream with nobody reading starts a goroutine (Stream.SetReadDeadline).  The
+   families td_families_deadline (established, each injection) are part of td_all_families, so by
+   c09_all_terminate / c09_done_means / c09_progress that goroutine has ended in every maximal run end and a
+   finished state stays reachable: unregisterStream closes readTimeoutCancel when the stream gets its terminal
+   error (fix 2bd54a4; before it the goroutine stayed until the deadline, D28). *)
+Theorem c09_deadline_families_are_covered : forall c, In c td_families_deadline -> In c td_all_families.
+Proof.
+  intros c H. unfold td_all_families. apply in_or_app. right. apply in_or_app. right. apply in_or_app. right. exact H.
+Qed.
+Print Assumptions c09_deadline_families_are_covered.
+
+Theorem c09_deadline_goroutine_ends : forall c s, In c td_families_deadline -> td_reach c s ->
+  td_steps c s = [] -> td_dl s = TdDlDone.
+Proof. exact td_deadline_goroutine_ends. Qed.
+Print Assumptions c09_deadline_goroutine_ends.
 
 (* non-vacuity: a concrete run — established, a reader blocked, Close() injected — reaches a finished state
    in which the Close() has returned and the reader got the read error *)
